@@ -41,6 +41,9 @@ class MXDomain:
     def const(self, c):
         return float(c)
 
+    def inf(self, sign):
+        return float('inf') * sign
+
     def nl1(self, a):
         return POLY1(a) if self.poly else ca.erf(a)
 
@@ -163,9 +166,19 @@ def declare(spec, cfg, poly=False, ocp=None, stage=None, with_method=True, paren
         sc = float(spec.uscale[i]) if spec.uscale is not None else 1
         b.us.append(st.control(scale=sc))
     b.zs = []
-    for i in range(spec.nz):
-        sc = float(spec.zscale[i]) if spec.zscale is not None else 1
-        b.zs.append(st.algebraic(scale=sc))
+    b.zgroups = []
+    if getattr(spec, 'zshape', None):
+        assert sum(spec.zshape) == spec.nz and spec.zscale is None
+        for n_ in spec.zshape:
+            zg = st.algebraic(n_)
+            b.zgroups.append(zg)
+            for j in range(n_):
+                b.zs.append(zg if n_ == 1 else zg[j])
+    else:
+        for i in range(spec.nz):
+            sc = float(spec.zscale[i]) if spec.zscale is not None else 1
+            b.zs.append(st.algebraic(scale=sc))
+            b.zgroups.append(b.zs[-1])
     b.qs = []
 
     def leaf(op, a):
@@ -209,6 +222,8 @@ def declare(spec, cfg, poly=False, ocp=None, stage=None, with_method=True, paren
             return ca.vcat([mx(x) for x in e])
         if isinstance(e, E) and e.op == 'xg':
             return b.xs[e.a[0]]          # a whole declared (vector/matrix valued) state
+        if isinstance(e, E) and e.op == 'zg':
+            return b.zgroups[e.a[0]]     # a whole declared (vector valued) algebraic variable
         if not isinstance(e, E):
             e = E('c', Fraction(e))
         return ca.MX(ev(e, leaf, dom, wrap))
